@@ -27,14 +27,27 @@ Vecs(n, hi) == [1..n -> 0..hi]
 Incr(n, hi) == {s \in Vecs(n, hi) : \A i \in 1..(n-1) : s[i] < s[i+1]}
 
 VARIABLE c
-Cases ==
-    UNION {{[kind |-> "pair", y |-> y, h |-> h] : y \in Vecs(n, VMax), h \in Vecs(n, VMax)} : n \in 1..NMax}
-    \cup UNION {{[kind |-> "line", x |-> x, y |-> y, b |-> <<b, 1>>, m |-> m] :
-                    x \in Incr(n, XMax), y \in Vecs(n, LVMax), b \in 0..BMax, m \in Slopes} : n \in 1..NMax}
-    \cup UNION {{[kind |-> "fit", x |-> x, y |-> y] : x \in Vecs(n, FMax), y \in Vecs(n, FMax)} : n \in 1..NMax}
-    \cup {[kind |-> "angle", m1 |-> m1, m2 |-> m2] : m1 \in Slopes, m2 \in Slopes}
+AllVecs(hi)  == UNION {Vecs(n, hi) : n \in 1..NMax}
+AllIncr(hi)  == UNION {Incr(n, hi) : n \in 1..NMax}
 
-Init == c \in Cases
+(* The initial states are GROUPS of cases (one per first vector); a Pick step then chooses the rest of
+   the case.  With several TLC workers the laws below are then evaluated in parallel: TLC evaluates
+   the invariants of successor states in the worker that generates them, but those of initial
+   states in a single thread.  No set is built by filtering a large space. *)
+Groups ==
+    {[kind |-> "group", of |-> "pair", y |-> y] : y \in AllVecs(VMax)}
+    \cup {[kind |-> "group", of |-> "line", x |-> x, m |-> m] : x \in AllIncr(XMax), m \in Slopes}
+    \cup {[kind |-> "group", of |-> "fit", x |-> x] : x \in AllVecs(FMax)}
+    \cup {[kind |-> "group", of |-> "angle"]}
+CasesOf(g) ==
+    IF g.of = "pair" THEN {[kind |-> "pair", y |-> g.y, h |-> h] : h \in Vecs(Len(g.y), VMax)}
+    ELSE IF g.of = "line" THEN {[kind |-> "line", x |-> g.x, y |-> y, b |-> <<b, 1>>, m |-> g.m] :
+                                   y \in Vecs(Len(g.x), LVMax), b \in 0..BMax}
+    ELSE IF g.of = "fit" THEN {[kind |-> "fit", x |-> g.x, y |-> y] : y \in Vecs(Len(g.x), FMax)}
+    ELSE {[kind |-> "angle", m1 |-> m1, m2 |-> m2] : m1 \in Slopes, m2 \in Slopes}
+
+Init == c \in Groups
+Pick == c.kind = "group" /\ c' \in CasesOf(c)
 
 Opt(cond, rec) == IF cond THEN rec ELSE <<>>          \* optional fields of the emitted object
 QSeq(ts) == [i \in 1..Len(ts) |-> QE(ts[i])]          \* exact values of an eps-free Term vector
@@ -45,7 +58,9 @@ NonNeg(qs) == \A i \in 1..Len(qs) : qs[i][1] >= 0
 MetricTerms(y, h, ratios) ==
     [rmse |-> Rmse(y, h), residuals |-> Residuals(y, h), smape |-> Smape(y, h),
      r2 |-> R2(y, h, "classic")]
-    @@ Opt(Len(y) >= 3, [r2adj |-> R2(y, h, "adjusted")])
+    \* adjusted variants are emitted compactly: the correction applied to the exact value of the
+    \* classic variant (PairLaws / FitLaws check that this is the same number as the full Term)
+    @@ Opt(Len(y) >= 3, [r2adj |-> Adjust(TQ(QE(R2(y, h, "classic"))), Len(y))])
     @@ Opt(ratios, [rmsle |-> Rmsle(y, h), rmspe |-> Rmspe(y, h), rpd |-> Rpd(y, h)])
 
 BestDefined(x, y) == Len(x) <= 2 \/ (~Constant(x) /\ ~Constant(y))
@@ -68,46 +83,50 @@ Expected(k) ==
              fitres |-> FitResiduals(x, y), hvres |-> HvResiduals(x, y),
              horizontal |-> PreferHorizontal(x, y), tie |-> ResidualTie(x, y)]
             @@ Opt(BestDefined(x, y), [best |-> BestFitR2(x, y)])
-            @@ Opt(BestDefined(x, y) /\ n >= 3, [bestadj |-> BestFitR2Adj(x, y)])
+            @@ Opt(BestDefined(x, y) /\ n >= 3, [bestadj |-> Adjust(TQ(QE(BestFitR2(x, y))), n)])
     ELSE
         LET c1 == <<TInt(0), TQ(k.m1)>>  c2 == <<TInt(1), TQ(k.m2)>> IN
         [kind |-> "angle", m1 |-> k.m1, m2 |-> k.m2,
          defined |-> (k.m1[1] * k.m2[1] + k.m1[2] * k.m2[2] # 0)]
         @@ Opt(k.m1[1] * k.m2[1] + k.m1[2] * k.m2[2] # 0, [angle |-> Angle(c1, c2)])
 
-Emit == /\ c.kind # "done"
+Emit == /\ c.kind \notin {"group", "done"}
         /\ PrintT(ToJson(Expected(c)))
         /\ c' = [kind |-> "done"]
-Next == Emit
+Next == Pick \/ Emit
 Spec == Init /\ [][Next]_c
 
 (* ---- laws of the definitions (binding M), exact rational (in)equalities -------------------
    Square roots are judged on their radicands (Mse, Mspe); Rmsle is not rational and has no law
    here.  Every QEval result is gcd-reduced with a positive denominator, so "=" is equality. *)
 NonNegQ(q) == q[1] >= 0
-ErrorTerms(y, h) == <<Mse(y, h), Residuals(y, h), Smape(y, h), Rpd(y, h), Mspe(y, h)>>
 
-MetricLaws(y, h) ==
+(* same: y and h are the same vector (the laws "= 0 when y = y_hat", "R2 = 1") *)
+MetricLaws(y, h, same) ==
+    LET mse == QE(Mse(y, h))  rss == QE(Residuals(y, h))  r2 == QE(R2(y, h, "classic")) IN
     /\ \A e \in EpsQs :
-        /\ QEval(Smape(y, h), e) = QEval(Smape(h, y), e)                       \* symmetric
-        /\ QLe(QEval(Smape(y, h), e), <<2, 1>>)                                 \* smape <= 2
-        /\ \A i \in 1..5 : NonNegQ(QEval(ErrorTerms(y, h)[i], e))              \* errors >= 0
-        /\ \A i \in 1..5 : QEval(ErrorTerms(y, y)[i], e)[1] = 0                \* and 0 on y = y_hat
-    /\ QE(Mse(y, h)) = QE(Mse(h, y))
-    /\ QE(Residuals(y, h)) = QE(Residuals(h, y))
-    /\ QE(Residuals(y, h)) = QNorm(<<QE(Mse(y, h))[1] * Len(y), QE(Mse(y, h))[2]>>)   \* sum = n * mean
-    /\ QLe(QE(R2(y, h, "classic")), QOne)                                       \* R2 <= 1
-    /\ QE(R2(y, y, "classic")) = QOne
-    /\ Len(y) >= 3 => /\ QLe(QE(R2(y, h, "adjusted")), QE(R2(y, h, "classic")))
-                      /\ QE(R2(y, y, "adjusted")) = QOne
+          LET s == QEval(Smape(y, h), e)  d == QEval(Rpd(y, h), e)  p == QEval(Mspe(y, h), e) IN
+          /\ s = QEval(Smape(h, y), e)                                          \* symmetric
+          /\ QLe(s, <<2, 1>>)                                                   \* smape <= 2
+          /\ NonNegQ(s) /\ NonNegQ(d) /\ NonNegQ(p)                             \* errors >= 0
+          /\ same => (s[1] = 0 /\ d[1] = 0 /\ p[1] = 0)                         \* and 0 on y = y_hat
+    /\ NonNegQ(mse) /\ NonNegQ(rss)
+    /\ mse = QE(Mse(h, y)) /\ rss = QE(Residuals(h, y))                          \* symmetric
+    /\ rss = QNorm(<<mse[1] * Len(y), mse[2]>>)                                  \* sum = n * mean
+    /\ QLe(r2, QOne)                                                            \* R2 <= 1
+    /\ same => (mse[1] = 0 /\ rss[1] = 0 /\ r2 = QOne)
+    /\ Len(y) >= 3 => LET ra == QE(R2(y, h, "adjusted")) IN
+                      /\ QLe(ra, r2)
+                      /\ ra = QE(Adjust(TQ(r2), Len(y)))         \* the compact emitted form is the same number
+                      /\ same => ra = QOne
 
-PairLaws == c.kind = "pair" => MetricLaws(TInts(c.y), TInts(c.h))
+PairLaws == c.kind = "pair" => MetricLaws(TInts(c.y), TInts(c.h), c.y = c.h)
 
 LineLaws == c.kind = "line" =>
     LET x == TInts(c.x)  y == TInts(c.y)  coef == <<TQ(c.b), TQ(c.m)>>  h == LineAt(x, coef) IN
     /\ NonNegQ(QE(W(Residuals, x, y, coef)))
     /\ QLe(QE(W_R2(x, y, coef, "classic")), QOne)
-    /\ NonNeg(QSeq(h)) => MetricLaws(y, h)
+    /\ NonNeg(QSeq(h)) => MetricLaws(y, h, QSeq(h) = QSeq(y))
     \* no line beats the least-squares line: R2 of any line <= corr^2
     /\ (Len(x) >= 3 /\ ~Constant(y)) => QLe(QE(W_R2(x, y, coef, "classic")), QE(BestFitR2(x, y)))
 
@@ -124,5 +143,6 @@ FitLaws == c.kind = "fit" =>
           /\ QLe(QZero, QE(BestFitR2(x, y))) /\ QLe(QE(BestFitR2(x, y)), QOne)  \* in [0, 1]
           /\ QE(BestFitR2(x, y)) = QE(BestFitR2(y, x))
           /\ n >= 3 => /\ QLe(QE(BestFitR2Adj(x, y)), QE(BestFitR2(x, y)))
+                       /\ QE(BestFitR2Adj(x, y)) = QE(Adjust(TQ(QE(BestFitR2(x, y))), n))
                        /\ QLe(QE(R2(y, LineAt(x, coef), "classic")), QE(BestFitR2(x, y)))
 =============================================================================
